@@ -2,9 +2,15 @@
 package main
 
 import (
+	"bytes"
 	"fmt"
+	"io"
 	"os"
+	"os/exec"
+	"regexp"
 	"strings"
+	"sync"
+	"syscall"
 	"time"
 
 	"verif/harness/checks"
@@ -54,6 +60,9 @@ func main() {
 		fmt.Printf("unknown property %s\n", id)
 		os.Exit(2)
 	}
+	if os.Getenv("VERIF_INNER") == "" {
+		os.Exit(supervise(id, tier))
+	}
 	run := mon.NewRun(id, tier)
 	// generous wall-clock watchdog: its firing is "inconclusive", never a verdict on the library
 	limit := 45 * time.Minute
@@ -74,4 +83,93 @@ func main() {
 		fn(run)
 	}()
 	os.Exit(run.Finish())
+}
+
+// supervise runs the check itself in a child process (same binary, VERIF_INNER=1). Exit codes 0, 1
+// and 2 are the check's own verdicts and pass through. Any other way of ending - a fatal signal
+// inside the C layer, a Go runtime fatal error such as "concurrent map writes", which no recover()
+// can intercept - would otherwise leave no verdict at all: when the crash output shows library or
+// cgo frames it is reported as a violation (the calls of the property did not return), otherwise
+// the run is inconclusive.
+func supervise(id, tier string) int {
+	cmd := exec.Command(os.Args[0], os.Args[1:]...)
+	cmd.Env = append(os.Environ(), "VERIF_INNER=1")
+	var tail tailBuf
+	cmd.Stdout = io.MultiWriter(os.Stdout, &tail)
+	cmd.Stderr = io.MultiWriter(os.Stderr, &tail)
+	err := cmd.Run()
+	code := 0
+	fatalSignal := ""
+	if err != nil {
+		code = -1
+		if ee, ok := err.(*exec.ExitError); ok {
+			code = ee.ExitCode()
+			if ws, ok := ee.Sys().(syscall.WaitStatus); ok && ws.Signaled() {
+				switch ws.Signal() {
+				case syscall.SIGSEGV, syscall.SIGBUS, syscall.SIGABRT, syscall.SIGILL, syscall.SIGFPE:
+					// the harness has no native code of its own: a raw fatal signal comes from the C layer
+					fatalSignal = ws.Signal().String()
+				}
+			}
+		}
+	}
+	if code == 0 || code == 1 || code == 2 {
+		return code
+	}
+	out := tail.String()
+	run := mon.NewRun(id, tier)
+	site := crashSite(out)
+	libraryCrash := strings.Contains(out, "signal arrived during cgo execution") || strings.Contains(out, "github.com/onflow/crypto") && (strings.Contains(out, "fatal error:") || strings.Contains(out, "SIGSEGV") || strings.Contains(out, "SIGABRT") || strings.Contains(out, "SIGBUS") || strings.Contains(out, "panic:"))
+	if libraryCrash || fatalSignal != "" {
+		what := "fatal error"
+		if fatalSignal != "" {
+			what = "killed by signal: " + fatalSignal
+			if site == "unknown" {
+				site = "native-code"
+			}
+		}
+		if m := regexp.MustCompile(`(?m)^(fatal error: .*|SIG[A-Z]+: .*|panic: .*)$`).FindString(out); m != "" {
+			what = m
+		}
+		if len(out) > 6000 {
+			out = out[len(out)-6000:]
+		}
+		run.Violate(fmt.Sprintf("%s:process-crash:%s", id, site), fmt.Sprintf("the check process died (%v) inside the library: %s at %s", err, what, site), map[string]any{"crash_output_tail": out})
+	} else {
+		run.Inconclusive(fmt.Sprintf("the check process ended abnormally (%v) without library frames in its output", err))
+	}
+	return run.Finish()
+}
+
+// crashSite names the first onflow/crypto frame (or C symbol) of a crash dump.
+func crashSite(out string) string {
+	if m := regexp.MustCompile(`github\.com/onflow/crypto(?:/[a-z]+)?\.((?:\(\*?[A-Za-z0-9_]+\)\.)?_?[A-Za-z0-9_]+)`).FindStringSubmatch(out); m != nil {
+		return strings.TrimPrefix(m[1], "_Cfunc_")
+	}
+	return "unknown"
+}
+
+// tailBuf keeps the last 256 KiB written to it.
+type tailBuf struct {
+	mu sync.Mutex
+	b  bytes.Buffer
+}
+
+func (t *tailBuf) Write(p []byte) (int, error) {
+	t.mu.Lock()
+	defer t.mu.Unlock()
+	t.b.Write(p)
+	if t.b.Len() > 512<<10 {
+		keep := t.b.Bytes()[t.b.Len()-(256<<10):]
+		nb := append([]byte{}, keep...)
+		t.b.Reset()
+		t.b.Write(nb)
+	}
+	return len(p), nil
+}
+
+func (t *tailBuf) String() string {
+	t.mu.Lock()
+	defer t.mu.Unlock()
+	return t.b.String()
 }
